@@ -40,6 +40,10 @@ type prov struct {
 // edge whether or not the consumer tolerates its absence).
 var optionalDeps bool
 
+// dupDeps lists every dependency twice (a constructor may name one service in
+// two parameters); the digraph is the same.
+var dupDeps bool
+
 func (p *prov) GetType() reflect.Type { return pool[p.id].t }
 func (p *prov) GetKey() any           { return pool[p.id].key }
 func (p *prov) GetGroup() string      { return pool[p.id].group }
@@ -48,6 +52,9 @@ func (p *prov) GetDependencies() []*reflection.Dependency {
 	for j := 0; j < p.n; j++ {
 		if p.deps&(1<<j) != 0 {
 			d = append(d, &reflection.Dependency{Type: pool[j].t, Key: pool[j].key, Group: pool[j].group, Optional: optionalDeps})
+			if dupDeps {
+				d = append(d, &reflection.Dependency{Type: pool[j].t, Key: pool[j].key, Group: pool[j].group, Optional: optionalDeps})
+			}
 		}
 	}
 	return d
@@ -289,6 +296,7 @@ func H_C06a_Topo() {
 	mask := vrt.Pick("mask", 0, 1<<(n*n)-1)
 	immediate := vrt.Bool("immediate")
 	optionalDeps = vrt.Pick("optional", 0, 1) == 1
+	dupDeps = vrt.Pick("dup", 0, 1) == 1
 	out := edgesFromMask(mask, n)
 	m := &model{n: n}
 	for i := 0; i < n; i++ {
